@@ -228,10 +228,12 @@ theorem C17_inline {V : Type} (A : Arith V) (g : GDef V) (loc : List Nat) (vs : 
 theorem C17_reset {V : Type} (s : St V) (a : Arg) :
     elabReset s a = (argIndices s.qregs a).map (·.map Op.reset) := rfl
 
-/-- `measure a -> c;` records, for every measured qubit, its circuit index. -/
+/-- `measure a -> c;` records, for every measured qubit, its circuit index, and every recorded
+classical bit lies inside its register. -/
 theorem C17_measure {V : Type} (s : St V) (q c : Arg) (loc : List Nat)
     (ms : List (Nat × String × Nat)) (h : elabMeasure s q c = some (.measure loc ms)) :
-    ms.map (·.1) = loc := by
+    ms.map (·.1) = loc ∧
+      ∀ m ∈ ms, ∃ sz, regSize s.cregs m.2.1 = some sz ∧ m.2.2 < sz := by
   unfold elabMeasure at h
   split at h
   · simp at h
@@ -245,28 +247,44 @@ theorem C17_measure {V : Type} (s : St V) (q c : Arg) (loc : List Nat)
           simp only [hi, hc] at h
           split at h
           · simp at h
-          · simp only [Option.map_eq_some_iff, Op.measure.injEq] at h
+          · rename_i hne
+            simp only [bne_iff_ne, ne_eq, Decidable.not_not] at hne
+            simp only [Option.map_eq_some_iff, Op.measure.injEq] at h
             obtain ⟨o, ho, rfl, rfl⟩ := h
             simp only [argIndices, hi, regIndices, ho, hqs] at hl
             simp only [Option.some.injEq] at hl
             subst hl
-            simp [List.map_map, Function.comp_def, Nat.add_comm]
+            refine ⟨by simp [List.map_map, Function.comp_def, Nat.add_comm], ?_⟩
+            intro m hm
+            simp only [List.mem_map, List.mem_range] at hm
+            obtain ⟨i, hi', rfl⟩ := hm
+            exact ⟨csz, hcs, by simp only; omega⟩
         | some j => simp [hi, hc] at h
       | some i =>
         cases hc : c.idx with
         | none => simp [hi, hc] at h
         | some j =>
-          simp only [hi, hc, Option.some.injEq, Op.measure.injEq] at h
-          obtain ⟨rfl, rfl⟩ := h
-          simp only [argIndices, hi, Option.map_eq_some_iff] at hl
-          obtain ⟨q0, _, rfl⟩ := hl
-          simp
+          simp only [hi, hc] at h
+          split at h
+          · rename_i hok
+            simp only [Option.some.injEq, Op.measure.injEq] at h
+            obtain ⟨rfl, rfl⟩ := h
+            simp only [argIndices, hi, Option.map_eq_some_iff] at hl
+            obtain ⟨q0, _, rfl⟩ := hl
+            refine ⟨by simp, ?_⟩
+            intro m hm
+            simp only [List.mem_singleton] at hm
+            subst hm
+            exact ⟨csz, hcs, clbitOk_lt hcs hok⟩
+          · simp at h
     · simp at h
 
 example : (elabMeasure ({ qregs := [("q", 2), ("r", 3)], cregs := [("c", 3)] } : St Int)
     ⟨"r", some 1⟩ ⟨"c", some 2⟩).map (fun o => (o.loc, o.meas)) = some ([3], [(3, "c", 2)]) ∧
     (elabReset ({ qregs := [("q", 2), ("r", 3)] } : St Int) ⟨"r", none⟩).map
-      (fun l => l.map Op.loc) = some [[2], [3], [4]] := by decide
+      (fun l => l.map Op.loc) = some [[2], [3], [4]] ∧
+    elabMeasure ({ qregs := [("q", 2)], cregs := [("c", 2)] } : St Int)
+      ⟨"q", some 0⟩ ⟨"c", some 5⟩ = none := by decide
 
 /-- `if (c == n) qop;` is rejected (the `statement` hook raises), whatever follows. -/
 theorem C17_if_rejected {V : Type} (ts : List Tok) :
@@ -302,8 +320,8 @@ example : (specDecodeToks intArith tinyTable
 /-- **Round trip of the writer's format through the reader** (tokens): header, classical
 register declarations (distinct names — the writer emits each once), and lines `name(p…)
 q[i],…;` over rows of the table, `barrier q[i],…;`, `reset q[i];`, `measure q[k] -> c[i];`
-(`PLine.Reads`: matching arities, distinct qubits inside the `N`-qubit register, declared
-classical register) are read back as exactly the operations `exp` — same gates, same
+(`PLine.Reads`: matching arities, distinct qubits inside the `N`-qubit register, classical bit
+inside its declared register) are read back as exactly the operations `exp` — same gates, same
 locations, parameters = the values of the printed literals (`C17_print_parse_param`),
 measurements keyed by the measured qubit. -/
 theorem C17_print_parse_partial {V : Type} (A : Arith V) (table : List BuiltinDef) (n : Nat)
@@ -326,7 +344,7 @@ example : ReadsAll intArith tinyTable 2 [("c", 2)]
   .cons ⟨.inr (.inr ⟨by decide, by decide, by decide,
       ⟨"rz", 1, 1, "RZGate", 1, 1⟩, [-2], rfl, rfl, rfl, rfl, rfl⟩), by decide⟩
     (.cons ⟨.inl ⟨rfl, rfl, by decide, by decide, rfl⟩, by decide⟩
-      (.cons ⟨by decide, ⟨2, rfl⟩, rfl⟩
+      (.cons ⟨by decide, ⟨2, rfl, by decide⟩, rfl⟩
         (.cons ⟨.inr (.inl ⟨rfl, rfl, 1, rfl, rfl⟩), by decide⟩ .nil)))
 
 /-! ## C17_gate_table — (B): the live table, regenerated on every run -/
